@@ -120,6 +120,25 @@ package keeper
 //@        && result.VestingPools[j].Name == $pName[req.Owner][j] && result.VestingPools[j].LockEnd == $pLockEnd[req.Owner][j]
 //@   decreases len(accountVestingPools.VestingPools) - \i
 
+//@ // ---- C05: every operation changes the module balance by exactly the change of the owner's locked sum ----
+//@ func (k Keeper) addVestingPool(ctx, vestingPoolName, accAddress, amount, vestingType, lockStart, lockEnd) (err)
+//@   requires !amount.IsNil() && amount >= 0 && poolsOK(toBech32(accAddress))
+//@   modifies $pFound, $pLen, $pName, $pType, $pLockStart, $pLockEnd, $pIL, $pW, $pS, $pGenesis, $bal
+//@   // a rejected request changes nothing
+//@   ensures err != nil ==> poolStoreUnchanged() && $bal == old($bal)
+//@   ensures err == nil ==> (let o = toBech32(accAddress) in let n = (old($pFound[o]) ? old($pLen[o]) : 0) in
+//@     $pFound[o] && $pLen[o] == n + 1 && otherOwnersUnchanged(o)
+//@     && $pName[o][n] == vestingPoolName && $pType[o][n] == vestingType && $pLockStart[o][n] == lockStart && $pLockEnd[o][n] == lockEnd
+//@     && $pIL[o][n] == amount && $pW[o][n] == 0 && $pS[o][n] == 0 && !$pGenesis[o][n]
+//@     && (forall i :: {$pIL[o][i]} 0 <= i && i < n ==> poolUnchanged(o, i) && $pW[o][i] == old($pW[o][i])))
+//@   // exactly `amount` moves from the owner to the module account
+//@   ensures err == nil && accAddress != modaddr("cfevesting") ==>
+//@     $bal[modaddr("cfevesting")][$vestingDenom] == old($bal[modaddr("cfevesting")][$vestingDenom]) + amount
+//@     && $bal[accAddress][$vestingDenom] == old($bal[accAddress][$vestingDenom]) - amount
+//@   ensures forall a: str :: {$bal[a]} a != modaddr("cfevesting") && a != accAddress ==> $bal[a] == old($bal[a])
+//@   ensures forall d: str :: {$bal[modaddr("cfevesting")][d]} d != $vestingDenom ==> $bal[modaddr("cfevesting")][d] == old($bal[modaddr("cfevesting")][d])
+//@   prop C05
+
 //@ // ---- C13: only governance changes the vesting denomination, and only while no pool exists ----
 //@ spec func vpKey() str = global("types.ParamsKey")
 //@ pred noPools() = forall o: str :: {$pFound[o]} !$pFound[o]
